@@ -145,7 +145,7 @@ impl Prop for C04 {
                     gen: enum_small,
                 },
             },
-            Stage { name: "random", kind: StageKind::Random { strategy: strat, cases: tier.pick(150_000, 2_000_000) } },
+            Stage { name: "random", kind: StageKind::Random { strategy: strat, cases: tier.pick(500_000, 3_000_000) } },
         ]
     }
     fn check(case: &TextCase, obs: &mut Obs) -> Verdict {
